@@ -6,6 +6,7 @@ from __future__ import annotations
 import importlib
 import json
 import os
+import subprocess
 import sys
 import traceback
 
@@ -32,6 +33,9 @@ def main() -> None:
         else:
             try:
                 res = mod.run_case(case)
+            except subprocess.TimeoutExpired as e:
+                # a CLI / driver subprocess of the case hit its wall-clock watchdog: inconclusive, not a harness bug
+                res = {"status": "timeout", "detail": f"subprocess watchdog: {str(e)[:200]}"}
             except BaseException:
                 res = {"status": "harness_error", "detail": traceback.format_exc()[-4000:]}
         try:
